@@ -362,7 +362,8 @@ pub fn judge(run: &Run, h: &Hist) -> V {
                 // period + counter must be those of ONE clock reading taken while the batch was processed
                 let fits = (a.clock_ms..=a.clock_end_ms.max(a.clock_ms)).step_by(1).take(200_000).any(|t| {
                     let (p, c) = period(run.cfg.roll, t);
-                    parts[0] == p && parts[1] == format!("{:08}", c)
+                    // numeric equality: zero padding is judged by the name-order clause, not here
+                    parts[0] == p && parts[1].parse::<u64>().ok() == Some(c)
                 });
                 if !fits {
                     if parts[0] != want_period && parts[0] != period(run.cfg.roll, a.clock_end_ms).0 {
